@@ -80,7 +80,7 @@ namespace glm
 
 		genType const prev = highestBitValue(value);
 		genType const next = prev << 1;
-		return (next - value) < (value - prev) ? next : prev;
+		return static_cast<genType>(next - value) < static_cast<genType>(value - prev) ? next : prev;
 	}
 
 	template<length_t L, typename T, qualifier Q>
